@@ -3,6 +3,7 @@ external packages that share a package name, packages whose name differs from th
 unaliased imports, the same alias used for different packages in different files, references in type position
 (Bind / Struct / FieldsOf / InterfaceValue) and in expression position (provider functions, Value expressions),
 1-3 wire files merged into one output; plus the failure kinds the property lists."""
+import re
 
 # catalogue of external packages: (directory below the case prefix, declared package name)
 CATALOGUE = [
@@ -16,15 +17,26 @@ CATALOGUE = [
     ("yaml.v3", "yaml"),       # gopkg.in style
 ]
 
-KINDS = ["fn", "fn", "val", "bind", "struct", "ival", "fieldsof"]
+KINDS = ["fn", "fn", "val", "bind", "struct", "ival", "fieldsof", "astruct", "afieldsof"]
+
+def ext_internal_source(j):
+    """the internal package behind the public aliases AOpt<j> / ACfg<j> / ALeaf<j> of external package j: its types can
+    be named from the migrated package only through those aliases"""
+    return "package in%d\n\nimport \"@LEAF@\"\n\ntype Opt struct{ N int }\n\ntype Cfg struct {\n\tA *leaf.L%d\n\tB string\n}\n" % (j, j)
+
+def ext_leaf_source(j):
+    """a public package (always called `leaf`) holding the field type of the internal Cfg"""
+    return "package leaf\n\ntype L%d struct{ N int }\n" % j
 
 def ext_source(j, pkgname, shared=False):
     """source of external package j.  Function and variable names always carry j (a reference resolved to the wrong
     package then fails to compile); with `shared` the *type* names are the same in every package (Svc, Cfg, ...), so
     that only the package path tells them apart"""
     txt = _EXT_SRC % dict(p=pkgname, j=j)
+    txt = txt.replace("package %s\n" % pkgname, "package %s\n\nimport \"@INTERNAL@\"\n" % pkgname, 1)
+    txt = txt.replace("import \"@INTERNAL@\"\n", "import (\n\t\"@INTERNAL@\"\n\t\"@LEAF@\"\n)\n", 1)
+    txt += "\ntype AOpt%d = in%d.Opt\n\ntype ACfg%d = in%d.Cfg\n\nfunc NewACfg%d() *ACfg%d { return &ACfg%d{A: &leaf.L%d{N: %d}} }\n" % (j, j, j, j, j, j, j, j, j)
     if shared:
-        import re
         txt = re.sub(r"\b(Svc|Iface|Opt|Leaf|Cfg|NewSvc|Pair)%d\b" % j, r"\1", txt)    # the constructor of Svc is NewSvc
     return txt
 
@@ -79,7 +91,7 @@ def gen_case(rng):
     if rng.chance(0.35) and nfiles > 1:
         u = rng.choice(uses)
         f2 = (u["file"] + 1) % nfiles
-        k2 = {"fn": "struct", "val": "fn", "bind": "val", "struct": "fn", "ival": "val", "fieldsof": "val"}[u["kind"]]
+        k2 = {"fn": "struct", "val": "fn", "bind": "val", "struct": "fn", "ival": "val", "fieldsof": "val", "astruct": "fn", "afieldsof": "val"}[u["kind"]]
         uses.append(dict(pkg=u["pkg"], kind=k2, file=f2, second=True))
     shared = rng.chance(0.5)
     # sometimes: FieldsOf on two structs of different packages in one element list (with shared type names both are `Cfg`)
@@ -127,7 +139,7 @@ def provided(u):
     """(type expression template with %(q)s for the qualifier, is it consumed by NewApp)"""
     j, k = u["pkg"], u["kind"]
     return {"fn": "*%%s.Svc%d" % j, "val": "%%s.Opt%d" % j, "bind": "%%s.Iface%d" % j, "struct": "*%%s.Opt%d" % j,
-            "ival": "%%s.Iface%d" % j, "fieldsof": "*%%s.Leaf%d" % j}[k]
+            "ival": "%%s.Iface%d" % j, "fieldsof": "*%%s.Leaf%d" % j, "astruct": "*%%s.AOpt%d" % j, "afieldsof": "*@LEAF%d@.L%d" % (j, j)}[k]
 
 def items(u, q):
     j, k = u["pkg"], u["kind"]
@@ -143,13 +155,18 @@ def items(u, q):
         return ["wire.InterfaceValue(new(%s.Iface%d), %s.TheSvc%d)" % (q, j, q, j)]
     if k == "fieldsof":
         return ["%s.NewCfg%d" % (q, j), 'wire.FieldsOf(new(*%s.Cfg%d), "A")' % (q, j)]
+    if k == "astruct":
+        return ['wire.Struct(new(%s.AOpt%d))' % (q, j)]        # the struct is named through an alias of an internal type
+    if k == "afieldsof":
+        return ["%s.NewACfg%d" % (q, j), 'wire.FieldsOf(new(*%s.ACfg%d), "A")' % (q, j)]
     raise ValueError(k)
 
 def compatible(uses):
     """drop uses that would make wire see two providers for one type (keeps the configuration legal for wire too)"""
     out, seen = [], set()
     for u in uses:
-        keys = {"fn": ["svc"], "val": ["opt"], "bind": ["svc", "iface"], "struct": ["opt"], "ival": ["iface"], "fieldsof": ["leaf", "cfg"]}[u["kind"]]
+        keys = {"fn": ["svc"], "val": ["opt"], "bind": ["svc", "iface"], "struct": ["opt"], "ival": ["iface"], "fieldsof": ["leaf", "cfg"],
+                "astruct": ["aopt"], "afieldsof": ["aleaf", "acfg"]}[u["kind"]]
         if any((u["pkg"], k) in seen for k in keys):
             continue
         for k in keys:
@@ -165,12 +182,21 @@ def render(case, prefix, pkgname):
     used_pk = sorted(set(u["pkg"] for u in uses))
     for j in used_pk:
         d, pn = CATALOGUE[j]
-        files["%s/%s/x.go" % (prefix, d)] = ext_source(j, pn, case.get("shared"))
+        lp = "e2e/%s/%s/leaf" % (prefix, d)
+        files["%s/%s/x.go" % (prefix, d)] = ext_source(j, pn, case.get("shared")).replace("@INTERNAL@", "e2e/%s/%s/internal/in%d" % (prefix, d, j)).replace("@LEAF@", lp)
+        files["%s/%s/internal/in%d/in.go" % (prefix, d, j)] = ext_internal_source(j).replace("@LEAF@", lp)
+        files["%s/%s/leaf/l.go" % (prefix, d)] = ext_leaf_source(j)
     def path(j):
         return "e2e/%s/%s" % (prefix, CATALOGUE[j][0])
     # types.go: the application, consuming everything provided; own unique aliases
-    imps = "".join('\tp%d "%s"\n' % (j, path(j)) for j in used_pk)
-    params = ", ".join("a%d %s" % (i, provided(u) % ("p%d" % u["pkg"])) for i, u in enumerate(uses))
+    imps = "".join('\tp%d "%s"\n' % (j, path(j)) for j in used_pk if any(u["pkg"] == j and u["kind"] != "afieldsof" for u in uses))
+    imps += "".join('\tpl%d "%s/leaf"\n' % (j, path(j)) for j in used_pk if any(u["pkg"] == j and u["kind"] == "afieldsof" for u in uses))
+    def ptype(u):
+        t = provided(u)
+        if "@LEAF" in t:
+            return re.sub(r"@LEAF(\d+)@", r"pl\1", t)
+        return t % ("p%d" % u["pkg"])
+    params = ", ".join("a%d %s" % (i, ptype(u)) for i, u in enumerate(uses))
     files["%s/types.go" % pkgname] = "package %s\n\nimport (\n%s)\n\ntype App struct{ N int }\n\nfunc NewApp(%s) *App { return &App{N: %d} }\n" % (
         pkgname, imps, params, len(uses))
     # result type of the injector
@@ -178,7 +204,7 @@ def render(case, prefix, pkgname):
     shape = case.get("shape")
     rt_w = "*App"
     if shape:
-        cand = [u for u in uses if u["file"] == lastf]
+        cand = [u for u in uses if u["file"] == lastf and u["kind"] != "afieldsof"]
         if cand:
             u0 = cand[0]
             q_w = case["names"]["%d:%d" % (lastf, u0["pkg"])][0]
@@ -229,7 +255,6 @@ def render(case, prefix, pkgname):
         files["%s/%s" % (pkgname, name)] = "//go:build wireinject\n\npackage %s\n\nimport (\n%s)\n\n%s" % (pkgname, "".join(imports), "\n".join(body))
         wire_files.append(name)
     if case.get("shared"):
-        import re
         for rel in list(files):
             if rel.startswith(pkgname + "/"):
                 files[rel] = re.sub(r"\b(Svc|Iface|Opt|Leaf|Cfg|NewSvc|Pair)\d+\b", r"\1", files[rel])
